@@ -137,6 +137,16 @@ def main():
         check("int-valueerror", False)
     except ValueError:
         pass
+    # float(s): the literal's value or ValueError (nothing else)                                                  (c18 memstr_to_bytes)
+    from fractions import Fraction
+    for lit in ("1", "0.5", "1e3", " 2 ", "-0", "1_0", "", "K", "1K", "0x10", "1,5", "٣"):
+        try:
+            v = float(lit)
+            check("float-literal", abs(Fraction(v) - Fraction(lit.strip().replace("_", "")) if lit.strip()[:1] not in ("٣",) else 0) < Fraction(1, 10 ** 9), lit)
+        except ValueError:
+            pass
+        except Exception as e:
+            check("float-raises-only-valueerror", False, (lit, repr(e)))
     # floor division / modulo signs                                                                            (ops.floordiv_term)
     for x in range(-7, 8):
         for y in (-3, -1, 1, 2, 5):
